@@ -5,8 +5,9 @@ import vf, drv, gen
 MANIFEST = {
     "text": "Coq theorems (Properties_C05.v, closed under the global context): the locked bump allocators for U and for L's "
             "subscripts hand out consecutive, disjoint, in-range blocks or take the abort path; an H-supernode slot of w x rows "
-            "entries suffices for the unchecked LUSUP allocations of its columns (PARTIAL: given that the predicted row count "
-            "dominates the actual one); an L-storage image accepted by the executable checker has ordered slots; the task queue "
+            "entries suffices for the unchecked LUSUP allocations of its columns (given that the predicted row count dominates the actual one); it does "
+            "for every pivot sequence when the diagonal is zero-free in the final column order (George & Ng: L column counts <= row-merge "
+            "counts <= Cholesky(A^T A) counts, U inside Cholesky(A^T A), any size); an L-storage image accepted by the executable checker has ordered slots; the task queue "
             "stays within n slots. Tie: the bump allocator model replayed on the request sequence of every run (hook inside the lock, with seeded "
             "delays while the lock is held) must give the very blocks the implementation handed out; the Gallina model of ?PresetMap is compared EXACTLY with the map_in_sup image of real runs "
             "(snapshot through the hook) and the verified checker is run on it; every LUSUP allocation of every thread is "
@@ -30,7 +31,7 @@ def make_case(rng, cid, n, kind, quick):
                    rng.choice([2, 100]), -50, -50, -30],
              thresh=rng.choice([1.0, 0.5, 0.1, 0.0]),
              perturb=[rng.randint(1, 10 ** 6), rng.choice([0.0, 0.2]), rng.choice([0, 100])],
-             trace=4, dumplu=0, timeout=90, kind=kind)
+             trace=4, dumplu=1, timeout=90, kind=kind)
     if rng.random() < 0.3:           # adversarial pivots: force a random row order where admissible
         pr = list(range(n)); rng.shuffle(pr)
         c["usepr"] = 1; c["permr"] = pr; c["thresh"] = 0.0
@@ -50,6 +51,34 @@ def model_line(c, r, dyn=False):
         " ".join(map(str, r["etree"])), " ".join(map(str, r["colcnt_h"])), " ".join(map(str, r["part_super_h"])))
 
 
+def rowmerge_tie(sdrv, c, r):
+    """K-exact tie of c05_colcount_dominated: for a matrix whose diagonal is zero-free in the final column order, the column
+    counts qrnzcnt predicted (colcnt_h) must EQUAL those of the extracted row-merge pattern, and (no relaxation) every column of
+    the returned L must have at most that many entries.  Returns (violation or None, broken or None, compared?)"""
+    n = c["n"]; pc = r["perm_c"]
+    ents = set()
+    for j in range(n):
+        for p in range(c["colptr"][j], c["colptr"][j + 1]):
+            ents.add((c["rowind"][p], pc[j]))
+    if not all((i, i) in ents for i in range(n)):
+        return None, None, False            # the bound is stated (and the code documented) for a zero-free diagonal
+    rc, out, err = vf.sh2([sdrv], inp="%d | %s\n" % (n, " ".join("%d %d" % e for e in sorted(ents))), timeout=300)
+    if rc != 0 or " R " not in out:
+        return None, "symfill model driver failed: %s" % (err[-200:] or out[:100]), False
+    R = [int(x) for x in out.split(" R ")[1].split()]
+    if R != r["colcnt_h"]:
+        k = next(k for k in range(n) if R[k] != r["colcnt_h"][k])
+        return ("predicted column count of column %d: qrnzcnt %d, the row-merge model gives %d (zero-free diagonal)" % (k, r["colcnt_h"][k], R[k])), None, True
+    if c["ienv"][1] == 1 and r.get("info") == 0 and "L" in r:
+        L = r["L"]; cs = L["col_to_sup"]
+        for j in range(n):
+            fs = L["sup_to_colbeg"][cs[j]]
+            cnt = L["rowind_colend"][fs] - L["rowind_colbeg"][fs] - (j - fs)
+            if cnt > R[j]:
+                return "column %d of L has %d entries, more than the row-merge bound %d" % (j, cnt, R[j]), None, True
+    return None, None, True
+
+
 def run(ctx):
     rng = ctx.rng
     ctx.cov["rule"] = ("p?gstrf on patterns with/without zero-free diagonal (random, randomzd, dense, arrow, star, banded, grid, block "
@@ -57,6 +86,8 @@ def run(ctx):
                        "nprocs 1..8, static and dynamic supernode storage; non-trivial = n>=3 and at least one fill; distinct by matrix+params")
     ctx.coq_properties()
     adrv = ctx.ocaml_model("alloc")
+    sdrv = ctx.ocaml_model("symfill")
+    nrm = 0
     kinds = ["random", "randomzd", "dense", "arrow", "star", "banded", "grid", "blockdiag", "chain", "diagdom"]
     N = 80 if ctx.quick() else 1000
     cases = [make_case(rng, k + 1, rng.randint(2, 40 if ctx.quick() else 120), kinds[k % len(kinds)], ctx.quick()) for k in range(N)]
@@ -92,6 +123,11 @@ def run(ctx):
                     bad = "LUSUP allocation ends at %d beyond nzlumax %d" % (r["max_lusup_end"], r["nzlumax"])
                 else:
                     nslot += 1
+                    if mode == "static" and "colcnt_h" in r and c["ienv"][1] <= c["ienv"][2]:
+                        bad, brk, did = rowmerge_tie(sdrv, c, r)
+                        nrm += 1 if (did and not bad and not brk) else 0
+                        if brk:
+                            ctx.broken.append(brk)
                     if "map_in_sup" in r and r["map_in_sup"] and "etree" in r and c["ienv"][1] <= c["ienv"][2]:
                         lines.append(model_line(c, r, dyn=(mode == "dynamic"))); idx.append(k)
             if bad:
@@ -129,6 +165,7 @@ def run(ctx):
                     ctx.violation("C05: storage image rejected by the verified slot checker: %s" % mm[:20], {"case": c, "map": mm},
                                   key={"kind": "slots"})
     ctx.cov["correspondence"]["presetmap_images_compared"] = nmap
+    ctx.cov["correspondence"]["colcnt_h_equal_to_rowmerge_model_and_dominating_L"] = nrm
     ctx.cov["correspondence"]["presetmap_dynamic_images_compared"] = ndyn
     ctx.cov["correspondence"]["bump_allocator_logs_equal_to_model"] = nbump
     ctx.cov["correspondence"]["runs_with_every_LUSUP_allocation_inside_its_slot"] = nslot
@@ -216,7 +253,10 @@ def run(ctx):
     ctx.cov["correspondence"]["tight_estimate_aborts_with_allocation_log_within_bounds"] = nlogged
     ctx.sample({k: cases[0][k] for k in ("kind", "n", "nprocs", "colperm", "ienv", "thresh")})
     ctx.log("images compared %d, slot-monitored runs %d, asan clean %d, abort path %d" % (nmap, nslot, nasan, nab))
-    ctx.cov["partial"] += ["colcnt_dominates: George-Ng bound / qrnzcnt not modelled; monitored by the per-allocation slot check",
+    ctx.cov["partial"] += ["the predicted bound dominates L for every pivot sequence: proved for matrices with a zero-free diagonal in the final "
+                           "column order (c05_colcount_dominated, George & Ng); qrnzcnt itself is not modelled, its output is compared exactly "
+                           "with the extracted row-merge model per run; without a zero-free diagonal (the code's ZFD_PERM is off) the bound "
+                           "is not guaranteed: monitored by the per-allocation slot check",
                            "work-array layout (SetIWork/SetRWork) covered by ASan only",
                            "C memory safety is a runtime property: ASan/UBSan sample it"]
     ctx.cov["trusted_base"] += ["AddressSanitizer/UBSan (gcc 12)", "event hooks"]
